@@ -123,6 +123,13 @@ def run(ctx):
                     cases.append((prog, ''.join(others[i % len(others)] for i in range(k)) + '}' + v + '}' + v + '}' + v))
                     # the same with every store of the others flushed at once (so that what they completed is visible to v)
                     cases.append((prog, ''.join(others[i % len(others)] + chr(ord('a') + int(others[i % len(others)])) for i in range(k)) + '}' + v + '}' + v + '}' + v))
+        if name == 'scen_wfcq':
+            # a non-blocking dequeue / splice that meets an enqueue in flight (it may answer WOULDBLOCK) must leave the queue usable: once that enqueue has completed
+            # and nothing is in progress, the next non-blocking operations, run alone, answer with the nodes
+            for prog in ('ddd/E0/E1', 'dnd/E0/E1', 'ndd/E0/E1', 'dddd/E0/E1E2'):
+                for k in range(0, 9):
+                    cases.append((prog, '>1b' + '2c' * k + '}0' + '>2cccc' + ('>2cccc' if 'E2' in prog else '') + '}0}0}0'))
+                    cases.append((prog, '>1b' + '2' * k + '}0' + '>2cccc' + ('>2cccc' if 'E2' in prog else '') + '}0}0}0'))
         if name == 'scen_lfhtx':
             # targeted family: a remover (del / replace) frozen at every point of its operation - in particular between the logical removal and the unlink -
             # with its victim directly behind a bucket node or behind an ordinary node; an updater of the same chain then runs alone and must help, not wait
